@@ -782,6 +782,50 @@ def demap(stmts, mod):
     return [T().visit(copy.deepcopy(s)) for s in stmts]
 
 
+_FOLD = {ast.Add: lambda a, b: a + b, ast.Sub: lambda a, b: a - b, ast.Mult: lambda a, b: a * b, ast.LShift: lambda a, b: a << b,
+         ast.Pow: lambda a, b: a ** b, ast.BitOr: lambda a, b: a | b}
+
+
+def _int_const(n):
+    return isinstance(n, ast.Constant) and type(n.value) is int
+
+
+class _Fold(ast.NodeTransformer):
+    """Constant arithmetic on small integer literals written out ((1 << 28) - 1, 128 ** 4 - 1): the literal it denotes."""
+
+    def visit_BinOp(self, node):
+        self.generic_visit(node)
+        f = _FOLD.get(type(node.op))
+        if f and _int_const(node.left) and _int_const(node.right) and 0 <= node.left.value < 2 ** 32 and 0 <= node.right.value <= 64:
+            v = f(node.left.value, node.right.value)
+            if 0 <= v < 2 ** 40:
+                return ast.copy_location(ast.Constant(value=v), node)
+        return node
+
+
+class _ClassConsts(ast.NodeTransformer):
+    """self.NAME / Class.NAME where NAME is bound once, in the class body, to integer arithmetic and never stored anywhere else."""
+
+    def __init__(self, prog, cls):
+        self.prog, self.cls = prog, cls
+        self.stored = {n.attr for m in prog.modules.values() for n in ast.walk(m.tree)
+                       if isinstance(n, ast.Attribute) and isinstance(n.ctx, (ast.Store, ast.Del))}
+        self.stored |= {a.value for m in prog.modules.values() for n in ast.walk(m.tree)
+                        if isinstance(n, ast.Call) and isinstance(n.func, ast.Name) and n.func.id in ("setattr", "delattr")
+                        for a in n.args[1:2] if isinstance(a, ast.Constant)}
+
+    def visit_Attribute(self, node):
+        self.generic_visit(node)
+        if isinstance(node.ctx, ast.Load) and isinstance(node.value, ast.Name) and node.attr not in self.stored \
+                and node.value.id in ("self", self.cls.name):
+            hit = self.prog.lookup_classattr(self.cls, node.attr)
+            if hit is not None:
+                v = _Fold().visit(copy.deepcopy(hit[1]))
+                if _int_const(v):
+                    return ast.copy_location(v, node)
+        return node
+
+
 def inlined_body(prog, cls, fn):
     """(statements of fn with helper calls inlined, list of helpers inlined)."""
     inl = Inliner(prog, cls.module if cls is not None else fn.module, cls)
@@ -792,6 +836,10 @@ def inlined_body(prog, cls, fn):
     body = detuple(body)
     if fn.name == "decode":
         body = normalize(body)
+    if cls is not None:
+        cc = _ClassConsts(prog, cls)
+        body = [cc.visit(s) for s in body]
+    body = [_Fold().visit(s) for s in body]
     for s in body:
         ast.fix_missing_locations(s)
     return body, inl.inlined
